@@ -576,7 +576,7 @@ func optics(files []string) string {
 	type sig struct{ classes, params, ret string }
 	for _, name := range order {
 		st := structs[name]
-		ms := methods[name]
+		ms := inlineMethodHelpers(methods[name], map[string]bool{"Put": true, "Get": true, "Forward": true, "Inverse": true})
 		sort.SliceStable(ms, func(i, j int) bool { return ms[i].Pos() < ms[j].Pos() })
 		sigs := map[string]sig{}
 		rawSig := map[string][]string{}
